@@ -29,7 +29,7 @@ PARTIAL = [
     "loop / list / table productions is missing (gJ's C01_structure is open too); proved: the value level through the parser's own value "
     "production (C02_parse_value_roundtrip, both dialects), C02_line_bound, C02_total; kernel-evaluated whole-document instances",
     "C02_line_bound is proved for whole documents (both versions, every walk order) in code UNITS (hence characters), under containersL: "
-    "codes/names fit a line, strings without NUL/CR, number texts of at most 2048 units (the open finding F-number-overlong)",
+    "codes/names fit a line, strings without NUL/CR, number texts one line of BMP units of any length",
     "C02_total is proved for whole documents (every walk order): writable CIF -> CIF_OK, or CIF_DISALLOWED_VALUE and the CIF holds a table "
     "entry; the sharper witness (that very key cannot be quoted with room for its colon) is checked per case by the oracle only",
 ]
